@@ -379,7 +379,7 @@ def numbering_pairs(cell, tier, rng):
     allp = [(a, b) for a in syms for b in syms]
     if cell in ("interval", "triangle", "quadrilateral"):
         return ident, allp
-    budget = {"quick": {"tetrahedron": 96, "hexahedron": 48}, "thorough": {"tetrahedron": 576, "hexahedron": 600}}[
+    budget = {"quick": {"tetrahedron": 144, "hexahedron": 64}, "thorough": {"tetrahedron": 576, "hexahedron": 600}}[
         "quick" if tier == "quick" else "thorough"][cell]
     if budget >= len(allp):
         return ident, allp
